@@ -1416,7 +1416,9 @@ impl<'a> HistoryIterator<'a> {
 		// Use TimestampComparator for history queries with timestamp range
 		// This enables efficient timestamp-based seeks when timestamps are monotonic with seq_nums
 		let inner = if ts_range.is_some() {
-			KMergeIterator::new_for_history(iter_state, range, ts_range)
+			// Tables are NOT pre-filtered by their timestamp span: a table outside
+			// the range may hold the barrier that erases versions inside it.
+			KMergeIterator::new_for_history(iter_state, range, None)
 		} else {
 			KMergeIterator::new_from(iter_state, range)
 		};
@@ -1472,33 +1474,6 @@ impl<'a> HistoryIterator<'a> {
 		while self.inner_valid() {
 			if self.inner_key().user_key() != current.as_slice() {
 				return Ok(true);
-			}
-			self.inner_next()?;
-		}
-		Ok(false)
-	}
-
-	/// With ts_range, seek to (next_user_key, ts_end) to skip entries above range.
-	/// Without ts_range, linearly scan past entries with the same user_key.
-	/// Returns true if positioned on a new user_key, false if iterator exhausted.
-	fn advance_to_next_user_key(&mut self) -> Result<bool> {
-		// Only optimize with ts_range
-		let ts_end = match self.ts_range {
-			Some((_, end)) => end,
-			None => return self.skip_to_next_user_key(),
-		};
-
-		let current = self.current_user_key.clone();
-
-		// Advance to find next user_key
-		while self.inner_valid() {
-			let next_key_vec = self.inner_key().user_key().to_vec();
-			if next_key_vec != current {
-				// Found next key - seek to (next_key, ts_end) to skip entries above range
-				let seek_key =
-					InternalKey::new(next_key_vec, u64::MAX, InternalKeyKind::Set, ts_end);
-				self.inner.seek(&seek_key.encode())?;
-				return Ok(self.inner_valid());
 			}
 			self.inner_next()?;
 		}
@@ -1589,23 +1564,9 @@ impl<'a> HistoryIterator<'a> {
 				continue;
 			}
 
-			// Skip entries outside timestamp range
-			if let Some((ts_start, ts_end)) = self.ts_range {
-				if timestamp > ts_end {
-					// Above range - skip, next entries might be in range
-					self.inner_next()?;
-					continue;
-				}
-				if timestamp < ts_start {
-					// Below range - all remaining entries for this key are also below
-					// (timestamps are ordered descending within a key).
-					// Skip to next user_key with optimization for B+tree.
-					if !self.advance_to_next_user_key()? {
-						return Ok(false);
-					}
-					continue;
-				}
-			}
+			// NOTE: the timestamp range is applied AFTER the barrier rules below. A
+			// hard delete or a replace erases the older versions whatever the range
+			// asked for: a barrier outside the range must still be seen.
 
 			// First visible entry → check for HARD_DELETE as latest
 			if !self.first_visible_seen {
@@ -1640,6 +1601,23 @@ impl<'a> HistoryIterator<'a> {
 			if is_replace {
 				self.barrier_seen = true;
 				// Don't skip - fall through to output
+			}
+
+			// Timestamp range (only now that the barriers have been accounted for)
+			if let Some((ts_start, ts_end)) = self.ts_range {
+				if timestamp > ts_end {
+					// Above range - skip, next entries might be in range
+					self.inner_next()?;
+					continue;
+				}
+				if timestamp < ts_start {
+					// Below range - all remaining entries for this key are also below
+					// (timestamps are ordered descending within a key).
+					if !self.skip_to_next_user_key()? {
+						return Ok(false);
+					}
+					continue;
+				}
 			}
 
 			// Rule 5: Soft DELETE (tombstone) filtering
@@ -1702,6 +1680,7 @@ impl<'a> HistoryIterator<'a> {
 			is_hard_delete: bool,
 			is_replace: bool,
 			is_tombstone: bool,
+			in_ts_range: bool,
 			encoded_key: Vec<u8>,
 			value: Vec<u8>,
 		}
@@ -1724,11 +1703,14 @@ impl<'a> HistoryIterator<'a> {
 				None => true,
 			};
 
-			if visible && in_ts_range {
+			// Every visible version takes part in the barrier rules; the timestamp
+			// range only decides what is listed.
+			if visible {
 				versions.push(VersionInfo {
 					is_hard_delete: key_ref.is_hard_delete_marker(),
 					is_replace: key_ref.is_replace(),
 					is_tombstone: key_ref.is_tombstone(),
+					in_ts_range,
 					encoded_key: key_ref.encoded().to_vec(),
 					value: self.inner_value()?.to_vec(),
 				});
@@ -1784,6 +1766,10 @@ impl<'a> HistoryIterator<'a> {
 
 			// Tombstone filtering
 			if !self.include_tombstones && v.is_tombstone {
+				continue;
+			}
+
+			if !v.in_ts_range {
 				continue;
 			}
 
@@ -1911,17 +1897,9 @@ impl LSMIterator for HistoryIterator<'_> {
 		self.direction = MergeDirection::Forward;
 		self.reset_all_state();
 
-		if self.ts_range.is_some() {
-			// Seek to (lower_bound or empty, ts_end) to skip entries above range
-			let ts = self.ts_range.map(|(_, end)| end).unwrap_or(u64::MAX);
-			let seek_key = InternalKey::new(
-				self.lower_bound.clone().unwrap_or_default(),
-				u64::MAX,
-				InternalKeyKind::Set,
-				ts,
-			);
-			self.inner.seek(&seek_key.encode())?;
-		} else if let Some(ref lower) = self.lower_bound {
+		// (No jump to the upper end of a timestamp range: newer entries may be
+		// barriers that erase what lies inside the range.)
+		if let Some(ref lower) = self.lower_bound {
 			let seek_key =
 				InternalKey::new(lower.clone(), u64::MAX, InternalKeyKind::Set, u64::MAX);
 			self.inner.seek(&seek_key.encode())?;
